@@ -282,4 +282,102 @@ theorem Interleave.flatten {β : Type} (ps : List (List β)) : Interleave ps ps.
       simp only [List.flatten_cons, List.cons_append] at ihp ⊢
       exact Interleave.take (a := []) ihp
 
+/-- an interleaving of ONE sequence is that sequence (a sequential run has one partition) -/
+theorem Interleave.singleton {β : Type} {l out : List β} (h : Interleave [l] out) : out = l := by
+  generalize hps : [l] = ps at h
+  induction h generalizing l with
+  | @done ps hnil => subst hps; exact (hnil l (by simp)).symm
+  | @take a b x rest out _ ih =>
+    cases a with
+    | nil =>
+      simp only [List.nil_append, List.cons.injEq] at hps
+      obtain ⟨rfl, rfl⟩ := hps
+      rw [ih (l := rest) rfl]
+    | cons y a => simp at hps
+
+/-! ### the collector object -/
+
+theorem Collector.absorb_entries (c : Collector ε) (coll : List (RecordError ε)) :
+    (c.absorb coll).entries = c.entries ++ coll := by
+  unfold Collector.absorb
+  induction coll generalizing c with
+  | nil => simp
+  | cons e coll ih => simp [ih, Collector.push, addError]
+
+theorem Collector.absorb_poisoned (c : Collector ε) (coll : List (RecordError ε)) :
+    (c.absorb coll).poisoned = c.poisoned := by
+  unfold Collector.absorb
+  induction coll generalizing c with
+  | nil => simp
+  | cons e coll ih => simp [ih, Collector.push]
+
+/-- the entries a logging validator with id prefix `pfx` pushes for one partition: one per invalid record, in
+    order, the id being the prefix followed by the index INSIDE the partition -/
+def logEntries (pfx : String) (validate : α → VResult ε) (xs : List α) : List (RecordError ε) :=
+  xs.zipIdx.filterMap (fun p => (validate p.1).map (fun es => ⟨some (pfx ++ toString p.2), es⟩))
+
+theorem logEntries_errors (pfx : String) (validate : α → VResult ε) (xs : List α) :
+    (logEntries pfx validate xs).map (·.errors) = xs.filterMap validate := by
+  have h := loopG_pushes_log pfx validate xs 0 [] []
+  rw [loopG_pushes_log_ids] at h
+  simpa [logEntries] using h
+
+/-! ### the legacy (`lock().unwrap()`) loop -/
+
+theorem legacy_validateLoop_healthy (validate : α → VResult ε) (mode : Mode) (c : Bool) (xs : List α) (i : Nat)
+    (vs : List α) (ps : List (RecordError ε)) :
+    Legacy.validateLoop validate mode c false xs i vs ps = validateLoop validate mode c xs i vs ps := by
+  induction xs generalizing i vs ps with
+  | nil => rfl
+  | cons x xs ih =>
+    unfold Legacy.validateLoop validateLoop
+    cases validate x <;> cases mode <;> cases c <;> simp [ih]
+
+theorem legacy_validateLoop_not_logging (validate : α → VResult ε) {mode : Mode} {c : Bool}
+    (h : ¬ (mode = .logAndContinue ∧ c = true)) (p : Bool) (xs : List α) (i : Nat)
+    (vs : List α) (ps : List (RecordError ε)) :
+    Legacy.validateLoop validate mode c p xs i vs ps = validateLoop validate mode c xs i vs ps := by
+  induction xs generalizing i vs ps with
+  | nil => rfl
+  | cons x xs ih =>
+    unfold Legacy.validateLoop validateLoop
+    cases validate x <;> cases mode <;> cases c <;> simp_all
+
+/-- with a poisoned collector the legacy log loop stopped at the first invalid record -/
+theorem legacy_validateLoop_poisoned_first (validate : α → VResult ε) (pre : List α) (x : α) (post : List α)
+    (es : List ε) (hpre : ∀ y ∈ pre, validate y = none) (hx : validate x = some es) (i : Nat)
+    (vs : List α) (ps : List (RecordError ε)) :
+    Legacy.validateLoop validate .logAndContinue true true (pre ++ x :: post) i vs ps
+      = ⟨vs ++ pre, ps, some (i + pre.length, es)⟩ := by
+  induction pre generalizing i vs ps with
+  | nil => simp [Legacy.validateLoop, hx]
+  | cons y pre ih =>
+    have hy : validate y = none := hpre y (by simp)
+    have ht : ∀ z ∈ pre, validate z = none := fun z hz => hpre z (by simp [hz])
+    simp only [List.cons_append]
+    unfold Legacy.validateLoop
+    simp only [hy]
+    rw [ih ht]
+    simp only [List.append_assoc, List.cons_append, List.nil_append, List.length_cons, Outcome.mk.injEq,
+      Option.some.injEq, Prod.mk.injEq, and_true, true_and]
+    omega
+
+/-! ### fused blocks -/
+
+theorem applyBlock_of_panicked (ops : List (BlockOp α ε)) (st : Outcome α ε) (h : st.panic.isSome = true) :
+    applyBlock ops st = st := by
+  cases ops with
+  | nil => rfl
+  | cons s rest => simp [applyBlock, h]
+
+theorem applyBlock_append (a b : List (BlockOp α ε)) (st : Outcome α ε) :
+    applyBlock (a ++ b) st = applyBlock b (applyBlock a st) := by
+  induction a generalizing st with
+  | nil => rfl
+  | cons s a ih =>
+    by_cases hp : st.panic.isSome = true
+    · rw [applyBlock_of_panicked _ _ hp, applyBlock_of_panicked _ _ hp, applyBlock_of_panicked _ _ hp]
+    · simp only [List.cons_append, applyBlock, hp, Bool.false_eq_true, ↓reduceIte]
+      cases s <;> simp only [ih]
+
 end IB.Validation
